@@ -654,6 +654,14 @@ class Messenger(Connection):
         while self.__rx_buf:
             if self._in_conn:
                 msgcls = messages.MessageHead
+                if not any(fval.get('msg_id') == self.__rx_buf[0]
+                           for (fval, _cls) in messages.MessageHead.payload_guess):
+                    # The extent of an unknown message is not known, so
+                    # nothing after it can be interpreted
+                    self._logger.error('Unknown message type %d', self.__rx_buf[0])
+                    self.__rx_buf = b''
+                    self.close()
+                    return
             else:
                 msgcls = contact.Head
 
